@@ -141,7 +141,19 @@ func (c *ctx) writeLean(name, content string) error {
 	if err == nil && string(old) == content {
 		return nil // keep mtime: no rebuild needed
 	}
-	return os.WriteFile(p, []byte(content), 0o644)
+	return writeAtomic(p, []byte(content))
+}
+
+// writeAtomic: several checks may regenerate the same file at the same time (`extract_also`); a reader never sees a torn file.
+func writeAtomic(p string, b []byte) error {
+	if old, err := os.ReadFile(p); err == nil && string(old) == string(b) {
+		return nil
+	}
+	tmp := fmt.Sprintf("%s.tmp%d", p, os.Getpid())
+	if err := os.WriteFile(tmp, b, 0o644); err != nil {
+		return err
+	}
+	return os.Rename(tmp, p)
 }
 
 func main() {
@@ -171,7 +183,7 @@ func main() {
 		}
 		if *facts != "" {
 			b, _ := json.MarshalIndent(f, "", " ")
-			if err := os.WriteFile(filepath.Join(*facts, id+".json"), append(b, '\n'), 0o644); err != nil {
+			if err := writeAtomic(filepath.Join(*facts, id+".json"), append(b, '\n')); err != nil {
 				fmt.Fprintln(os.Stderr, err)
 				rc = 2
 			}
